@@ -35,9 +35,10 @@ Floating-point round-off is outside the theorems and is measured by the correspo
   right ones on `0 < θ ≤ 0.05` is itself not a theorem (C04's derivative theorem is stated for `θ > 0.05` only).
 * `Jinvp` on `‖Log X‖ ≤ eps`: `SO3_Jinvp_spec_taylor_partial` (exact defect polynomial), identity-element theorems `*_Jinvp_one`.  There is
   no uniqueness theorem for Sim3 (truncation; see `sim3JlInv_*`).
-* No Log-side statement (`Log(Exp(τ)·X) = Log X + Jinvp(X,τ) + o(τ)`) beyond the derivative form `SO3/SE3_Jinvp_first_order`; RxSO3/Sim3
-  have no first-order theorem here (RxSO3: C04's `RxSO3Log_tangent` is the derivative of `Log`; Sim3 `Jinvp` is a truncation, so the exact
-  clause is false and only the distance theorems hold).
+* No Log-side statement (`Log(Exp(τ)·X) = Log X + Jinvp(X,τ) + o(τ)`) beyond the derivative form `SO3/SE3/RxSO3_Jinvp_first_order` (rotation angle
+  above `eps`; SE3 above 0.05) and, at rotation angle exactly 0, `SO3_Jinvp_first_order_one`, `SE3_Jinvp_first_order_translation`,
+  `RxSO3_Jinvp_first_order_scale`, `Sim3_Jinvp_first_order_one`.  For `0 < angle ≤ eps` there is no derivative statement; for Sim3 away from
+  the identity `Jinvp` is a truncation, so the exact clause is false and only the distance theorems hold.
 * `Jr`: `so3Jr_eq_Jl_neg`, `so3Exp_matrix_mul_Jr`, `so3Jr_hasDerivAt` hold on `eps < ‖x‖` (and `so3Jr_zero`/`so3Jr_small_angle` say the code returns
   exactly `1` on `‖x‖ ≤ eps`).  On `0 < ‖x‖ ≤ eps` the defining clause `Jr = Jl(−x)` is FALSE for the code (it returns `1`, off by `O(eps)`);
   this is disclosed, not proved around.
@@ -1001,6 +1002,143 @@ theorem SO3_Jinvp_first_order (eps : ℝ) (heps : 0 < eps) (X : Quat ℝ) (hX : 
   have hv3 : ∀ v : Vec3 ℝ, AD.v3 [v.x, v.y, v.z] = v := by intro v; simp [AD.v3, AD.nth]
   simpa [AD.nth, SO3Jinvp, JlInvMat, AD_v3_toList, AD.toRows_mulVec, Vec3.toList, hv3] using this
 end
+
+section
+open AD
+/-- **RxSO3 `Jinvp` is the first-order change of `Log(Exp(τ)@X)` in direction `p`** (regime 1 of `SO3_Log`, rotation angle above `eps`) -/
+theorem RxSO3_Jinvp_first_order (eps : ℝ) (heps : 0 < eps) (X : RxSO3 ℝ) (hX : RxSO3.Valid X) (p : rxso3 ℝ)
+    (hv : eps < X.q.vec.norm) (hw : eps < |X.q.w|) (hφ : eps < (RxSO3Log eps X).phi.norm) (i : Nat) (hi : i < 4) :
+    HasDerivAt (fun t : ℝ => (RxSO3Log eps (RxSO3Retr eps X ⟨p.phi.smul t, p.sigma * t⟩)).toList.getD i 0)
+      ((RxSO3Jinvp eps X p).getD i 0) 0 := by
+  have hτ : p.toList.length = Grp.RxSO3.adim := by
+    obtain ⟨⟨a1, a2, a3⟩, s⟩ := p; simp [rxso3.toList, Vec3.toList, Grp.adim]
+  have hR := retr_tangent .RxSO3 eps heps X.toList p.toList hτ
+  obtain ⟨key, hc0⟩ := RxSO3_retr_curve eps X p (RxSO3_Retr_zero eps (le_of_lt heps) X)
+  have hlog : ∀ Y : RxSO3 ℝ, logF .RxSO3 eps Y.toList = (RxSO3Log eps Y).toList := by
+    intro Y; simp only [logF, AD_toRx_toList]
+  obtain ⟨⟨a0, a1, a2⟩, a3⟩ := p
+  have hp : (⟨⟨a0, a1, a2⟩, a3⟩ : rxso3 ℝ).toList = [a0, a1, a2, a3] := rfl
+  rw [hp] at hR key hc0
+  obtain ⟨⟨q1, q2, q3, q4⟩, s⟩ := X
+  have hXl : (⟨⟨q1, q2, q3, q4⟩, s⟩ : RxSO3 ℝ).toList = [q1, q2, q3, q4, s] := rfl
+  have hL := RxSO3Log_tangent eps (le_of_lt heps) (fun t => retrF .RxSO3 eps (⟨⟨q1, q2, q3, q4⟩, s⟩ : RxSO3 ℝ).toList (DVec.smul t [a0, a1, a2, a3])) a0 a1 a2 a3
+    hR (by rw [hc0, hXl]; simpa [AD.qt, AD.nth] using hX.1) (by rw [hc0, hXl]; simpa [AD.nth] using hX.2)
+    (by rw [hc0, hXl]; simpa [AD.qt, AD.nth] using hv) (by rw [hc0, hXl]; simpa [AD.qt, AD.nth] using hw)
+    (by rw [hc0, hXl]; simpa [AD.qt, AD.nth, AD.v3, logF, RxSO3Log, Vec3.toList] using hφ)
+  have := hL i hi
+  simp only [hc0, hlog, key] at this
+  simpa [AD.nth, RxSO3Jinvp, JlInvMat, AD_torx_toList, hp] using this
+/-- **rotation angle 0 (the Taylor branch of `so3_Jl_inv`, regime 3 of `SO3_Log`)**: at `X = ±1` `Jinvp` is still the first-order change of
+`Log(Exp(τ)@X)` — SO3 -/
+theorem SO3_Jinvp_first_order_one (eps : ℝ) (heps : 0 < eps) (X : Quat ℝ) (hv : X.vec = ⟨0, 0, 0⟩) (hw : X.w * X.w = 1)
+    (p : Vec3 ℝ) (i : Nat) (hi : i < 3) :
+    HasDerivAt (fun t : ℝ => (SO3Log eps (SO3Retr eps X (p.smul t))).toList.getD i 0) ((SO3Jinvp eps X p).toList.getD i 0) 0 := by
+  have hτ : p.toList.length = Grp.SO3.adim := by simp [Vec3.toList, Grp.adim]
+  have hR := retr_tangent .SO3 eps heps X.toList p.toList hτ
+  obtain ⟨key, hc0⟩ := SO3_retr_curve eps X p (SO3_Retr_zero eps (le_of_lt heps) X)
+  have hlog : ∀ Y : Quat ℝ, logF .SO3 eps Y.toList = (SO3Log eps Y).toList := by
+    intro Y; simp only [logF, AD_qt_toList]
+  obtain ⟨a0, a1, a2⟩ := p
+  have hp : (⟨a0, a1, a2⟩ : Vec3 ℝ).toList = [a0, a1, a2] := rfl
+  rw [hp] at hR key hc0
+  have hL := SO3Log_tangent_identity eps heps (fun t => retrF .SO3 eps X.toList (DVec.smul t [a0, a1, a2])) a0 a1 a2
+    hR (by rw [hc0, AD_qt_toList]; exact hv) (by rw [hc0]; obtain ⟨q1, q2, q3, q4⟩ := X; simpa [AD.nth, Quat.toList] using hw)
+  have := hL i hi
+  simp only [hc0, hlog, key] at this
+  have hv3 : ∀ v : Vec3 ℝ, AD.v3 [v.x, v.y, v.z] = v := by intro v; simp [AD.v3, AD.nth]
+  simpa [AD.nth, SO3Jinvp, JlInvMat, AD_v3_toList, AD.toRows_mulVec, Vec3.toList, hv3] using this
+/-- … SE3: every pure translation `X = (t, ±1)` -/
+theorem SE3_Jinvp_first_order_translation (eps : ℝ) (heps : 0 < eps) (X : SE3 ℝ) (hv : X.q.vec = ⟨0, 0, 0⟩) (hw : X.q.w * X.q.w = 1)
+    (p : se3 ℝ) (i : Nat) (hi : i < 6) :
+    HasDerivAt (fun t : ℝ => (SE3Log eps (SE3Retr eps X ⟨p.tau.smul t, p.phi.smul t⟩)).toList.getD i 0)
+      ((SE3Jinvp eps X p).getD i 0) 0 := by
+  have hτ : p.toList.length = Grp.SE3.adim := by simp [se3.toList, Vec3.toList, Grp.adim]
+  have hR := retr_tangent .SE3 eps heps X.toList p.toList hτ
+  obtain ⟨key, hc0⟩ := SE3_retr_curve eps X p (SE3_Retr_zero eps (le_of_lt heps) X)
+  have hlog : ∀ Y : SE3 ℝ, logF .SE3 eps Y.toList = (SE3Log eps Y).toList := by
+    intro Y; simp only [logF, AD_toSE3_toList]
+  obtain ⟨⟨a0, a1, a2⟩, ⟨a3, a4, a5⟩⟩ := p
+  have hp : (⟨⟨a0, a1, a2⟩, ⟨a3, a4, a5⟩⟩ : se3 ℝ).toList = [a0, a1, a2, a3, a4, a5] := rfl
+  rw [hp] at hR key hc0
+  obtain ⟨⟨t1, t2, t3⟩, ⟨q1, q2, q3, q4⟩⟩ := X
+  have hXl : (⟨⟨t1, t2, t3⟩, ⟨q1, q2, q3, q4⟩⟩ : SE3 ℝ).toList = [t1, t2, t3, q1, q2, q3, q4] := rfl
+  have hL := SE3Log_tangent_identity eps heps (fun t => retrF .SE3 eps (⟨⟨t1, t2, t3⟩, ⟨q1, q2, q3, q4⟩⟩ : SE3 ℝ).toList (DVec.smul t [a0, a1, a2, a3, a4, a5]))
+    a0 a1 a2 a3 a4 a5 hR (by rw [hc0, hXl]; simpa [AD.qt, AD.nth, Quat.vec] using hv) (by rw [hc0, hXl]; simpa [AD.nth] using hw)
+  have := hL i hi
+  simp only [hc0, hlog, key] at this
+  simpa [AD.nth, SE3Jinvp, JlInvMat, AD_tose3_toList, hp] using this
+/-- … RxSO3: every pure scaling `X = (±1, s)`, `s > 0` -/
+theorem RxSO3_Jinvp_first_order_scale (eps : ℝ) (heps : 0 < eps) (X : RxSO3 ℝ) (hv : X.q.vec = ⟨0, 0, 0⟩) (hw : X.q.w * X.q.w = 1)
+    (hs : 0 < X.s) (p : rxso3 ℝ) (i : Nat) (hi : i < 4) :
+    HasDerivAt (fun t : ℝ => (RxSO3Log eps (RxSO3Retr eps X ⟨p.phi.smul t, p.sigma * t⟩)).toList.getD i 0)
+      ((RxSO3Jinvp eps X p).getD i 0) 0 := by
+  have hτ : p.toList.length = Grp.RxSO3.adim := by
+    obtain ⟨⟨a1, a2, a3⟩, s⟩ := p; simp [rxso3.toList, Vec3.toList, Grp.adim]
+  have hR := retr_tangent .RxSO3 eps heps X.toList p.toList hτ
+  obtain ⟨key, hc0⟩ := RxSO3_retr_curve eps X p (RxSO3_Retr_zero eps (le_of_lt heps) X)
+  have hlog : ∀ Y : RxSO3 ℝ, logF .RxSO3 eps Y.toList = (RxSO3Log eps Y).toList := by
+    intro Y; simp only [logF, AD_toRx_toList]
+  obtain ⟨⟨a0, a1, a2⟩, a3⟩ := p
+  have hp : (⟨⟨a0, a1, a2⟩, a3⟩ : rxso3 ℝ).toList = [a0, a1, a2, a3] := rfl
+  rw [hp] at hR key hc0
+  obtain ⟨⟨q1, q2, q3, q4⟩, s⟩ := X
+  have hXl : (⟨⟨q1, q2, q3, q4⟩, s⟩ : RxSO3 ℝ).toList = [q1, q2, q3, q4, s] := rfl
+  have hL := RxSO3Log_tangent_identity eps heps (fun t => retrF .RxSO3 eps (⟨⟨q1, q2, q3, q4⟩, s⟩ : RxSO3 ℝ).toList (DVec.smul t [a0, a1, a2, a3]))
+    a0 a1 a2 a3 hR (by rw [hc0, hXl]; simpa [AD.nth] using hs) (by rw [hc0, hXl]; simpa [AD.qt, AD.nth, Quat.vec] using hv)
+    (by rw [hc0, hXl]; simpa [AD.nth] using hw)
+  have := hL i hi
+  simp only [hc0, hlog, key] at this
+  simpa [AD.nth, RxSO3Jinvp, JlInvMat, AD_torx_toList, hp] using this
+/-- **Sim3 `Jinvp` at the identity element is the first-order change of `Log(Exp(τ))`** — the only first-order statement for Sim3 (away
+from the identity `sim3_Jl_inv` is a truncation and the exact clause is false): along `t ↦ Exp(t·p)·1` every component of the coded
+`Sim3_Log` has derivative `Jinvp(1, p)_i = p_i` at `t = 0`. -/
+theorem Sim3_Jinvp_first_order_one (eps : ℝ) (heps : 0 < eps) (p : sim3 ℝ) (i : Nat) (hi : i < 7) :
+    HasDerivAt (fun t : ℝ => (Sim3Log eps (Sim3Retr eps Sim3one ⟨p.tau.smul t, p.phi.smul t, p.sigma * t⟩)).toList.getD i 0)
+      ((Sim3Jinvp eps Sim3one p).getD i 0) 0 := by
+  have hτ : p.toList.length = Grp.Sim3.adim := by
+    obtain ⟨⟨a1, a2, a3⟩, ⟨a4, a5, a6⟩, s⟩ := p; simp [sim3.toList, Vec3.toList, Grp.adim]
+  have hR := retr_tangent .Sim3 eps heps (Sim3one : Sim3 ℝ).toList p.toList hτ
+  have key : ∀ t : ℝ, retrF .Sim3 eps (Sim3one : Sim3 ℝ).toList (DVec.smul t p.toList)
+      = (Sim3Retr eps Sim3one ⟨p.tau.smul t, p.phi.smul t, p.sigma * t⟩).toList := by
+    intro t
+    simp only [retrF, mulF, expF, AD_tosim_smul, AD_toSim_toList, Sim3Retr]
+  have h0 : Sim3Retr eps Sim3one ⟨p.tau.smul 0, p.phi.smul 0, p.sigma * 0⟩ = (Sim3one : Sim3 ℝ) := by
+    have e : (⟨p.tau.smul 0, p.phi.smul 0, p.sigma * 0⟩ : sim3 ℝ) = ⟨Vec3.zero, Vec3.zero, 0⟩ := by
+      congr 1 <;> first | (ext <;> lie_unfold <;> ring) | ring
+    rw [e]; exact Sim3_Retr_zero eps (le_of_lt heps) Sim3one
+  have hc0 : retrF .Sim3 eps (Sim3one : Sim3 ℝ).toList (DVec.smul 0 p.toList) = (Sim3one : Sim3 ℝ).toList := by rw [key 0, h0]
+  have hlog : ∀ Y : Sim3 ℝ, logF .Sim3 eps Y.toList = (Sim3Log eps Y).toList := by
+    intro Y; simp only [logF, AD_toSim_toList]
+  obtain ⟨⟨a0, a1, a2⟩, ⟨a3, a4, a5⟩, a6⟩ := p
+  have hp : (⟨⟨a0, a1, a2⟩, ⟨a3, a4, a5⟩, a6⟩ : sim3 ℝ).toList = [a0, a1, a2, a3, a4, a5, a6] := rfl
+  rw [hp] at hR key hc0
+  have hone : (Sim3one : Sim3 ℝ).toList = [0, 0, 0, 0, 0, 0, 1, 1] := by
+    simp [Sim3one, Sim3.toList, Vec3.toList, Quat.toList, Vec3.zero, Quat.one]
+  have hL := Sim3Log_tangent_identity eps heps (fun t => retrF .Sim3 eps (Sim3one : Sim3 ℝ).toList (DVec.smul t [a0, a1, a2, a3, a4, a5, a6]))
+    a0 a1 a2 a3 a4 a5 a6 hR (by rw [hc0, hone]; simp [AD.v3, AD.nth]) (by rw [hc0, hone]; simp [AD.qt, AD.nth, Quat.vec])
+    (by rw [hc0, hone]; simp [AD.nth]) (by rw [hc0, hone]; simp [AD.nth])
+  have := hL i hi
+  simp only [hc0, hlog, key] at this
+  simpa [AD.nth, Sim3Jinvp, JlInvMat, AD_tosim_toList, hp] using this
+/-- … whose value is `p_i` (`Sim3_Jinvp_one`) -/
+theorem Sim3_Log_Exp_first_order (eps : ℝ) (heps : 0 < eps) (p : sim3 ℝ) (i : Nat) (hi : i < 7) :
+    HasDerivAt (fun t : ℝ => (Sim3Log eps (Sim3Retr eps Sim3one ⟨p.tau.smul t, p.phi.smul t, p.sigma * t⟩)).toList.getD i 0)
+      (p.toList.getD i 0) 0 := by
+  have := Sim3_Jinvp_first_order_one eps heps p i hi
+  rwa [Sim3_Jinvp_one] at this
+end
+
+/-- non-vacuity: the zero-rotation hypotheses hold at the identity elements (and at `−1`, at every translation, at every positive scale);
+`RxSO3_Jinvp_first_order`'s hypotheses hold at machine eps for `X = ((0.6,0,0,0.8), 2)` by the `SO3` example above, since
+`(RxSO3Log eps X).phi = SO3Log eps X.q` by definition. -/
+example : (Quat.one : Quat ℝ).vec = ⟨0, 0, 0⟩ ∧ (Quat.one : Quat ℝ).w * (Quat.one : Quat ℝ).w = 1 := by
+  constructor <;> simp [Quat.one, Quat.vec]
+example : ((⟨⟨3, -2, 5⟩, ⟨0, 0, 0, -1⟩⟩ : SE3 ℝ).q.vec = ⟨0, 0, 0⟩) ∧ (⟨⟨3, -2, 5⟩, ⟨0, 0, 0, -1⟩⟩ : SE3 ℝ).q.w * (⟨⟨3, -2, 5⟩, ⟨0, 0, 0, -1⟩⟩ : SE3 ℝ).q.w = 1 := by
+  constructor <;> simp [Quat.vec]
+example (eps : ℝ) : RxSO3.Valid (⟨⟨0.6, 0, 0, 0.8⟩, 2⟩ : RxSO3 ℝ) ∧
+    (RxSO3Log eps (⟨⟨0.6, 0, 0, 0.8⟩, 2⟩ : RxSO3 ℝ)).phi = SO3Log eps (⟨0.6, 0, 0, 0.8⟩ : Quat ℝ) := by
+  refine ⟨⟨?_, by norm_num⟩, rfl⟩
+  lie_unfold; norm_num
 
 /-! ## non-vacuity of the hypotheses -/
 example : SO3.Valid (⟨0.6, 0, 0, 0.8⟩ : Quat ℝ) := by unfold SO3.Valid; lie_unfold; norm_num
